@@ -161,3 +161,58 @@ pub fn register_c02(v: &mut Vec<Scenario>) {
     { avg!("C19", Rgb, true); }
     { avg!("C19", Rgba, true); }
 }
+
+/// C11 at integer element types: `determine_side` is the 2D cross product, `signed_triangle_area` is that value
+/// halved *once* in the machine's truncating division (halving the two products separately is the same over the
+/// reals and differs for odd products), `triangle_area` its absolute value.
+fn side_area_int<T: IntSc + num_traits::One + std::ops::Div<Output = T> + std::ops::Add<Output = T> + std::ops::Sub<Output = T> + std::ops::Mul<Output = T> + std::ops::Neg<Output = T>>() {
+    use vek::vec::repr_c::Vec2;
+    set_int_mode();
+    set_range_assumed(); // overflow of the products is the caller's business; the subject is what is halved, and when
+    let p = |n: &str| Vec2::new(var::<T>(&format!("{}x", n)), var::<T>(&format!("{}y", n)));
+    let (a, b, c) = (p("a"), p("b"), p("c"));
+    let cross = (b.x - a.x) * (c.y - a.y) - (b.y - a.y) * (c.x - a.x);
+    let two = T::one() + T::one();
+    goal("law/determine_side = 2D cross product of (b - a) and (c - a)", eq(c.determine_side(a, b), cross));
+    let s = Vec2::signed_triangle_area(a, b, c);
+    goal("law/signed_triangle_area = cross product / 2", eq(s, cross / two));
+    let t = Vec2::triangle_area(a, b, c);
+    goal("law/triangle_area = |cross product / 2|", or(vec![and(vec![le(k(0), cross / two), eq(t, cross / two)]), and(vec![lt(cross / two, k(0)), eq(t, -(cross / two))])]));
+}
+pub fn register_c11(v: &mut Vec<Scenario>) {
+    v.push(Scenario { name: "c11/int/vec2_side_area".to_string(), prop: "C11", tier: 0, funcs: vec!["Vec2::determine_side", "Vec2::signed_triangle_area", "Vec2::triangle_area"], sym: Box::new(|| side_area_int::<SymIS>()), f64_: None, cn: None,
+        extra: vec![("i8", "(= M 127)", Box::new(|| side_area_int::<i8>()) as crate::explore::Run), ("i32", "(= M 2147483647)", Box::new(|| side_area_int::<i32>()) as crate::explore::Run)], max_paths: 64, timeout: Some((10, 120)) });
+}
+
+/// C16 at integer element types: the bounding rectangle / box of a disk / sphere is centre -+ radius per axis, and
+/// computing it overflows nowhere when those corners themselves are representable (a detour through the diameter,
+/// harmless over the reals, overflows for radii above MAX/2) — for every width at once.
+fn disk_bounds_int<T: IntSc + std::ops::Add<Output = T> + std::ops::Sub<Output = T>>(three: bool) {
+    use crate::vecs::VK;
+    use vek::geom::repr_c::{Disk, Sphere};
+    use vek::vec::repr_c::{Vec2, Vec3};
+    set_int_mode();
+    let n = if three { 3 } else { 2 };
+    let c: Vec<T> = (0..n).map(|i| var::<T>(&format!("c{}", i))).collect();
+    let r = var::<T>("r");
+    assume(le(k(0), r));
+    // precondition, stated as hypotheses: every corner coordinate is representable
+    set_range_assumed();
+    let want: Vec<(T, T)> = c.iter().map(|ci| (*ci - r, *ci + r)).collect();
+    set_range_checked();
+    let (mn, mx) = if three {
+        let b = Sphere::new(Vec3::new(c[0], c[1], c[2]), r).aabb();
+        (b.min.ent(), b.max.ent())
+    } else {
+        let b = Disk::new(Vec2::new(c[0], c[1]), r).aabr();
+        (b.min.ent(), b.max.ent())
+    };
+    goal("law/bounds = centre -+ radius per axis", and((0..n).flat_map(|i| vec![eq(mn[i], want[i].0), eq(mx[i], want[i].1)]).collect()));
+}
+pub fn register_c16(v: &mut Vec<Scenario>) {
+    for three in [false, true] {
+        let name = if three { "c16/int/sphere_aabb" } else { "c16/int/disk_aabr" };
+        v.push(Scenario { name: name.to_string(), prop: "C16", tier: 0, funcs: vec!["Disk::aabr", "Sphere::aabb"], sym: Box::new(move || disk_bounds_int::<SymIS>(three)), f64_: None, cn: None,
+            extra: vec![("i8", "(= M 127)", Box::new(move || disk_bounds_int::<i8>(three)) as crate::explore::Run), ("i32", "(= M 2147483647)", Box::new(move || disk_bounds_int::<i32>(three)) as crate::explore::Run)], max_paths: 64, timeout: Some((10, 120)) });
+    }
+}
